@@ -198,10 +198,21 @@ def run_case(cls, params, rec):
 	full = list(range(n))
 	st, base = run(full, n * ns + 3)
 	if st != "ok":
-		if st == "raise" and refmode != "tensor" and ("shuffle" in repr(
-			base).lower() or "max()" in repr(base)):
-			rec.refusal(cls, params, repr(base)[:200])
-			return
+		if st == "raise" and refmode != "tensor":
+			# a refusal, not a violation, when the reference function itself
+			# refuses one of these sequences (no diversity to shuffle) ...
+			for i in range(n):
+				for j in range(ns):
+					stf, _ = gen.call(kw["references"], X[i:i + 1], n=1,
+						random_state=int(params["random_state"]) + j)
+					if stf == "raise":
+						rec.refusal(cls, params, repr(base)[:200])
+						return
+			# ... or when an undocumented kind of seed object is refused
+			if params.get("seedkind", "int") != "int":
+				rec.refusal(cls, params, "seed kind %s refused: %s" % (
+					params["seedkind"], repr(base)[:120]))
+				return
 		rec.violation(cls, params, dict(desc, what="baseline call: " + st,
 			error=repr(base)[:300]), mech="C06/" + st)
 		return
